@@ -7,10 +7,12 @@ K15 = [
     r".", r"(?s).", r"[^a]", r"[^\n]", r"\w", r"\W", r"\d", r"\D", r"\s", r"\S", r"[a-z]", r"[^a-z]", r"é", r"(?i)é", r"(?i)k", r"(?i)s", r"[é-ü]", r"[\x{80}-\x{7ff}]",
     r"[\x{800}-\x{ffff}]", r"[\x{10000}-\x{10ffff}]", r"[\x{7f}-\x{80}]", r"[\x{7ff}-\x{800}]", r"[\x{ffff}-\x{10000}]", r"[\x{d7ff}-\x{e000}]", r"\p{Greek}", r"\P{Greek}", r"\pL", r"\p{Lu}",
     r"[^\x{0}-\x{10fffe}]", r"\x{fffd}", r"[α-ω]", r"(?i)[k-l]", r"日", r"[日本]", r"\p{Han}", r"(?i)ǅ", r"[[:alpha:]]", r"[^[:alpha:]]", r"\pN", r"..", r"\W{2}",
+    # classes with non-ASCII members AND a range that starts or ends at the last ASCII code point (DEL): ASCII-only mode boundary
+    r"[^ -~]", r"\p{Cc}", r"[\x{7f}\x{100}]", r"[^\x00-\x7e]", r"[\x{7e}-\x{100}]",
 ]
-QUICK = {r".", r"[^a]", r"\W", r"é", r"(?i)k", r"[\x{80}-\x{7ff}]", r"[\x{7ff}-\x{800}]", r"\p{Greek}", r"(?i)é"}
+QUICK = {r".", r"[^a]", r"\W", r"é", r"(?i)k", r"[\x{80}-\x{7ff}]", r"[\x{7ff}-\x{800}]", r"\p{Greek}", r"(?i)é", r"[^ -~]", r"\p{Cc}", r"[\x{7f}-\x{80}]"}
 SLOW3 = {r"[\x{800}-\x{ffff}]", r"[\x{10000}-\x{10ffff}]", r"\pL", r"\P{Greek}", r"[^\x{0}-\x{10fffe}]"}
-ASCII_OK = {r".", r"(?s).", r"[^a]", r"\w", r"\W", r"\d", r"\D", r"[a-z]", r"[^a-z]", r"(?i)k", r".."}
+ASCII_OK = {r".", r"(?s).", r"[^a]", r"\w", r"\W", r"\d", r"\D", r"[a-z]", r"[^a-z]", r"(?i)k", r"..", r"[^ -~]", r"\p{Cc}", r"[\x{7f}\x{100}]", r"[^\x00-\x7e]", r"[\x{7e}-\x{100}]", r"[\x{7f}-\x{80}]", r"\s", r"\S", r"[^\n]"}
 
 
 # 3-byte classes whose bounds have different lead bytes: explored over the boundary bytes of the
@@ -55,7 +57,9 @@ def items(tier):
                 out.append(mk("C15", p, "nfa", L, "", mode=1))
         out.append(mk("C15", p, "e2e", 3 if tier == "quick" else 4, ""))
         if p in ASCII_OK:
-            out.append(mk("C15", p, "nfa", 2, "ascii", mode=2))
+            # (a one-character class matches strings of length 1 only: L = 2 alone never reached a match)
+            for La in [1, 2]:
+                out.append(mk("C15", p, "nfa", La, "ascii", mode=2))
     return out
 
 
